@@ -39,6 +39,16 @@ impl Env {
             handler: Handler::new(storage),
         }
     }
+    /// Clean restart: drop the handler (and its storage engine), reopen on the same directory.
+    pub fn restart(self) -> Result<Env, String> {
+        let Env { scratch, handler } = self;
+        handler.shutdown();
+        drop(handler);
+        let mut cfg = mk_config(scratch.path(), 10000, DurabilityMode::Immediate, None);
+        cfg.storage.auto_create_knowledge_graphs = false;
+        let storage = StorageEngine::new(cfg).map_err(|e| format!("reopen: {e}"))?;
+        Ok(Env { scratch, handler: Handler::new(storage) })
+    }
     pub fn run(&self, session: Option<&String>, kg: Option<&str>, program: &str, auth: Option<&AuthIdentity>) -> Result<QueryResult, String> {
         let p = program.to_string();
         let kg = kg.map(|s| s.to_string());
